@@ -370,7 +370,8 @@ impl<T: Serializable + Deserializable> SerOps for SerOf<T> {
 pub struct DropImage {
     pub before: Vec<u8>,
     pub after: Vec<u8>,
-    pub secrets: Vec<(&'static str, Vec<u8>)>,
+    /// (name, value, offset of the live field inside the slot as reported by the accessor's pointer)
+    pub secrets: Vec<(&'static str, Vec<u8>, usize)>,
 }
 
 fn image_of<T>(slot: &MaybeUninit<T>) -> Vec<u8> {
@@ -378,12 +379,18 @@ fn image_of<T>(slot: &MaybeUninit<T>) -> Vec<u8> {
     (0..std::mem::size_of::<T>()).map(|i| unsafe { std::ptr::read_volatile(p.add(i)) }).collect()
 }
 
-fn drop_probe<T>(v: T, secrets: Vec<(&'static str, Vec<u8>)>) -> DropImage {
+/// `fields` returns, for the value at its final address, the byte slices of the secrets it holds
+fn drop_probe<T>(v: T, fields: impl for<'a> Fn(&'a T) -> Vec<(&'static str, &'a [u8])>) -> DropImage {
     let mut slot: Box<MaybeUninit<T>> = Box::new(MaybeUninit::uninit());
     unsafe {
         std::ptr::write_bytes(slot.as_mut_ptr() as *mut u8, 0xa5, std::mem::size_of::<T>());
     }
     slot.write(v);
+    let base = slot.as_ptr() as usize;
+    let secrets: Vec<(&'static str, Vec<u8>, usize)> = {
+        let r: &T = unsafe { slot.assume_init_ref() };
+        fields(r).into_iter().map(|(n, b)| (n, b.to_vec(), (b.as_ptr() as usize).wrapping_sub(base))).collect()
+    };
     let before = image_of(&slot);
     unsafe { std::ptr::drop_in_place(slot.as_mut_ptr()) };
     let after = image_of(&slot);
@@ -528,22 +535,14 @@ where
         let m = build_mode_s::<Kem>(mode)?;
         let pk_r: Kem::PublicKey = parse("pk_r", pk_r)?;
         let (_, ctx) = hpke::setup_sender::<A, Kdf, Kem, _>(&m, &pk_r, info, rng).map_err(Fail::Hpke)?;
-        let secrets = vec![
-            ("base_nonce", ctx.verif_base_nonce().to_vec()),
-            ("exporter_secret", ctx.verif_exporter_secret().to_vec()),
-        ];
-        Ok(drop_probe(ctx, secrets))
+        Ok(drop_probe(ctx, |c| vec![("base_nonce", c.verif_base_nonce()), ("exporter_secret", c.verif_exporter_secret())]))
     }
     fn probe_drop_receiver(&self, mode: &ModeR, sk_r: &[u8], enc: &[u8], info: &[u8]) -> Result<DropImage, Fail> {
         let m = build_mode_r::<Kem>(mode)?;
         let sk_r: Kem::PrivateKey = parse("sk_r", sk_r)?;
         let enc: Kem::EncappedKey = parse("enc", enc)?;
         let ctx = hpke::setup_receiver::<A, Kdf, Kem>(&m, &sk_r, &enc, info).map_err(Fail::Hpke)?;
-        let secrets = vec![
-            ("base_nonce", ctx.verif_base_nonce().to_vec()),
-            ("exporter_secret", ctx.verif_exporter_secret().to_vec()),
-        ];
-        Ok(drop_probe(ctx, secrets))
+        Ok(drop_probe(ctx, |c| vec![("base_nonce", c.verif_base_nonce()), ("exporter_secret", c.verif_exporter_secret())]))
     }
     fn probe_drop_shared_secret(&self, pk_r: &[u8], sender: Option<(&[u8], &[u8])>, rng: &mut ScriptRng) -> Result<DropImage, Fail> {
         let pk_r: Kem::PublicKey = parse("pk_r", pk_r)?;
@@ -552,8 +551,7 @@ where
             None => None,
         };
         let (ss, _) = Kem::encap(&pk_r, pair.as_ref().map(|(a, b)| (a, b)), rng).map_err(Fail::Hpke)?;
-        let secrets = vec![("shared_secret", ss.0.to_vec())];
-        Ok(drop_probe(ss, secrets))
+        Ok(drop_probe(ss, |s| vec![("shared_secret", &s.0[..])]))
     }
     fn probe_drop_shared_secret_decap(&self, sk_r: &[u8], pk_s: Option<&[u8]>, enc: &[u8]) -> Result<DropImage, Fail> {
         let sk_r: Kem::PrivateKey = parse("sk_r", sk_r)?;
@@ -563,8 +561,7 @@ where
         };
         let enc: Kem::EncappedKey = parse("enc", enc)?;
         let ss = Kem::decap(&sk_r, pk_s.as_ref(), &enc).map_err(Fail::Hpke)?;
-        let secrets = vec![("shared_secret", ss.0.to_vec())];
-        Ok(drop_probe(ss, secrets))
+        Ok(drop_probe(ss, |s| vec![("shared_secret", &s.0[..])]))
     }
 }
 
@@ -633,3 +630,10 @@ pub fn psk_bundle_new(psk: &[u8], psk_id: &[u8]) -> Result<(), HpkeError> {
 pub fn get_kem(kem: KemId) -> &'static dyn DynSuite {
     get(Suite { kem, kdf: KdfId::Sha256, aead: AeadId::ChaCha })
 }
+
+/// Drop ledger snapshot: (drops, dirty drops) for AeadKey, AeadNonce, ExporterSecret, SharedSecret
+pub fn ledger() -> [(usize, usize); 4] {
+    use hpke::verif::{ledger, Kind};
+    [ledger(Kind::AeadKey), ledger(Kind::AeadNonce), ledger(Kind::ExporterSecret), ledger(Kind::SharedSecret)]
+}
+pub const LEDGER_NAMES: [&str; 4] = ["AeadKey", "AeadNonce", "ExporterSecret", "SharedSecret"];
